@@ -11,7 +11,15 @@ M = 65536
 
 
 class Proxy(threading.Thread):
-    def __init__(self, server_port, host="127.0.0.1", on_packet=None):
+    """One transfer at a time.  Server -> client datagrams are relayed at once.  Client -> server
+    datagrams are HELD until the server side has been quiet for `hold` seconds: a worker sends its
+    burst (all copies of all blocks of a window) without reading its socket, so an input that
+    reaches the server while the burst is still going out is consumed only afterwards - holding
+    it makes the order in which the proxy logs datagrams the order in which the server's worker
+    sees them.  `log` is in that order; `log_client` is in the order of arrival at the proxy,
+    which is the order the client's worker sees."""
+
+    def __init__(self, server_port, host="127.0.0.1", on_packet=None, hold=0.004, react=0.003, hold_data=False):
         super().__init__(daemon=True)
         fam = socket.AF_INET6 if ":" in host else socket.AF_INET
         self.host = host
@@ -25,14 +33,25 @@ class Proxy(threading.Thread):
         self.server = (host, server_port)
         self.listener_port = server_port
         self.client = None
-        self.log = []          # (direction, bytes, extra)
+        self.log = []          # (direction, bytes, extra) as the server's worker sees them
+        self.log_client = []   # ... as the client's worker sees them
         self.on_packet = on_packet
         self.stop_flag = False
         self.last = time.time()
+        self.last_s2c = 0.0
+        self.hold = hold          # quiet time of the server side before a held datagram goes on
+        self.react = react        # time allowed for the server to start reacting to the previous one
+        self.hold_data = hold_data  # also serialise DATA (needed only when the server duplicates ACKs)
+        self.last_forward = 0.0
+        self.held = []
 
     def run(self):
         while not self.stop_flag:
-            r, _, _ = select.select([self.a, self.b], [], [], 0.05)
+            timeout = 0.05
+            if self.held:
+                due = max(self.last_s2c + self.hold, self.last_forward + self.react)
+                timeout = max(0.0, min(timeout, due - time.time()))
+            r, _, _ = select.select([self.a, self.b], [], [], timeout)
             for s in r:
                 try:
                     data, addr = s.recvfrom(70000)
@@ -42,14 +61,27 @@ class Proxy(threading.Thread):
                 if s is self.a:
                     self.client = addr
                     extra = self.on_packet("c2s", data) if self.on_packet else None
-                    self.log.append(("c2s", data, extra))
-                    self.b.sendto(data, self.server)
+                    self.log_client.append(("c2s", data, extra))
+                    if len(data) >= 2 and data[1] == 3 and not self.hold_data and not self.held:
+                        self.log.append(("c2s", data, extra))      # DATA of a lock-step upload: no ambiguity
+                        self.b.sendto(data, self.server)
+                    else:
+                        self.held.append((data, extra))
                 else:
                     if addr[1] != self.listener_port:
                         self.server = addr          # the transfer's own port (multi-port mode)
-                    self.log.append(("s2c", data, self.on_packet("s2c", data) if self.on_packet else None))
+                    self.last_s2c = time.time()
+                    entry = ("s2c", data, self.on_packet("s2c", data) if self.on_packet else None)
+                    self.log.append(entry)
+                    self.log_client.append(entry)
                     if self.client:
                         self.a.sendto(data, self.client)
+            now = time.time()
+            if self.held and now >= self.last_s2c + self.hold and now >= self.last_forward + self.react:
+                data, extra = self.held.pop(0)       # one at a time: the reaction to it comes before the next
+                self.log.append(("c2s", data, extra))
+                self.b.sendto(data, self.server)
+                self.last_forward = time.time()
 
     def stop(self):
         self.stop_flag = True
@@ -74,7 +106,7 @@ def size_class(data, blk):
     return "full" if len(data) == blk else ("empty" if not data else "short")
 
 
-def build_traces(log, direction, content, dup, clean_server, label):
+def build_traces(log, direction, content, dup, clean_server, label, log_client=None):
     """-> (server-subject events, client-subject events, negotiated dict) from the proxy log"""
     blk, w, tmo = 512, 1, 5
     oack = False
@@ -146,6 +178,9 @@ def build_traces(log, direction, content, dup, clean_server, label):
                 (cli if d == "c2s" else srv).append({"e": "out", "k": "err", "code": p["code"]})
     srv.append({"e": "quiet"})
     cli.append({"e": "quiet"})
+    if log_client is not None and log_client is not log:
+        # the client's worker saw the datagrams in the order of arrival at the proxy
+        _, cli, _ = build_traces(log_client, direction, content, dup, clean_server, label, None)
     return srv, cli, {"blk": blk, "W": w, "oack": oack}
 
 
@@ -160,7 +195,7 @@ def run_tftpc(args, cwd, timeout=120):
 
 
 def one_run(srv, sb, workdir, direction, remote, content, blk, w, tmo, label, host="127.0.0.1", local_name=None,
-            expect_refusal=False, via_proxy=True):
+            expect_refusal=False, via_proxy=True, hold=0.004):
     """Runs tftpc once.  Returns (server events, client events, final event)."""
     os.makedirs(workdir, exist_ok=True)
     rd = os.path.join(workdir, "rd")
@@ -196,7 +231,7 @@ def one_run(srv, sb, workdir, direction, remote, content, blk, w, tmo, label, ho
                     negotiated["blk"] = int("".join(str(x) for x in o["v"]) or "0")
         return on_packet(d, b)
 
-    proxy = Proxy(srv.port, host, on_packet=sniff) if via_proxy else None
+    proxy = Proxy(srv.port, host, on_packet=sniff, hold=hold, react=max(0.003, hold / 2), hold_data=srv.flags["dup"] > 0) if via_proxy else None
     port = proxy.port if proxy else srv.port
     if proxy:
         proxy.start()
@@ -215,7 +250,7 @@ def one_run(srv, sb, workdir, direction, remote, content, blk, w, tmo, label, ho
     srv_ev, cli_ev = [], []
     refused = any(d == "s2c" and NET.parse(b)["k"] == "error" for d, b, _ in log[:3]) if proxy else ("received error" in (so + se).lower())
     if proxy and not refused and log:
-        srv_ev, cli_ev, neg = build_traces(log, direction, content, srv.flags["dup"], srv.flags["clean"], label)
+        srv_ev, cli_ev, neg = build_traces(log, direction, content, srv.flags["dup"], srv.flags["clean"], label, proxy.log_client)
         # exits: the client process has ended; the server reports on stdout / stderr
         deadline = time.time() + 1.0
         while time.time() < deadline:
